@@ -1657,6 +1657,249 @@ fn search_type_exprs(obs: &[&str]) {
     for ob in obs { emit(ob, found.is_some(), explored, found.clone().unwrap_or(Value::Null)); }
 }
 
+// C10, BOUNDED (not a proof; the layout printer is format!/String code this Verus build cannot reason about and the parser is a peg expansion): every definition of a finite
+// family (see `fmt_corpus`) is parsed, formatted at top level (`get_multiline(0, w)`) for EVERY width w in 0..=100 (and 1000), and the formatted text must
+//   (parse)      be accepted by the real parser,
+//   (preserve)   give a definition with the same interface name, documentation comments, member names in order per kind, field names and types (compared with an
+//                independent structural dump written here, not with the formatter),
+//   (idempotent) format, at the same width, to the same text byte for byte,
+//   (colored)    equal the colored rendering at that width once ANSI escape sequences (ESC [ ... m) are removed,
+//   (display)    and Display is the width-80 rendering.
+fn dump_type(t: &varlink_parser::VTypeExt, out: &mut String) {
+    use varlink_parser::{VType, VTypeExt};
+    match t {
+        VTypeExt::Array(v) => { out.push_str("A<"); dump_type(v, out); out.push('>'); }
+        VTypeExt::Dict(v) => { out.push_str("D<"); dump_type(v, out); out.push('>'); }
+        VTypeExt::Option(v) => { out.push_str("O<"); dump_type(v, out); out.push('>'); }
+        VTypeExt::Plain(p) => match p {
+            VType::Bool => out.push_str("bool"), VType::Int => out.push_str("int"), VType::Float => out.push_str("float"),
+            VType::String => out.push_str("string"), VType::Object => out.push_str("object"),
+            VType::Typename(n) => { out.push_str("T:"); out.push_str(n); }
+            VType::Struct(s) => dump_struct(s, out),
+            VType::Enum(e) => { out.push_str("E{"); for x in &e.elts { out.push_str(x); out.push(','); } out.push('}'); }
+        },
+    }
+}
+fn dump_struct(s: &varlink_parser::VStruct, out: &mut String) {
+    out.push_str("S{");
+    for a in &s.elts { out.push_str(a.name); out.push(':'); dump_type(&a.vtype, out); out.push(','); }
+    out.push('}');
+}
+fn dump_idl(i: &varlink_parser::IDL) -> String {
+    use varlink_parser::VStructOrEnum;
+    let mut o = String::new();
+    o.push_str(&format!("name={}\ndoc={:?}\n", i.name, i.doc));
+    for k in &i.typedef_keys {
+        let t = &i.typedefs[k];
+        o.push_str(&format!("type {} doc={:?} ", t.name, t.doc));
+        match &t.elt { VStructOrEnum::VStruct(s) => dump_struct(s, &mut o), VStructOrEnum::VEnum(e) => { o.push_str("E{"); for x in &e.elts { o.push_str(x); o.push(','); } o.push('}'); } }
+        o.push('\n');
+    }
+    for k in &i.method_keys {
+        let m = &i.methods[k];
+        o.push_str(&format!("method {} doc={:?} ", m.name, m.doc));
+        dump_struct(&m.input, &mut o); o.push_str("->"); dump_struct(&m.output, &mut o); o.push('\n');
+    }
+    for k in &i.error_keys {
+        let e = &i.errors[k];
+        o.push_str(&format!("error {} doc={:?} ", e.name, e.doc));
+        dump_struct(&e.parm, &mut o); o.push('\n');
+    }
+    o
+}
+fn strip_ansi(s: &str) -> String {
+    let mut o = String::new();
+    let mut it = s.chars().peekable();
+    while let Some(c) = it.next() {
+        if c == '\u{1b}' && it.peek() == Some(&'[') {
+            it.next();
+            while let Some(d) = it.next() { if d.is_ascii_alphabetic() { break; } }
+        } else { o.push(c); }
+    }
+    o
+}
+fn fmt_corpus() -> Vec<String> {
+    let types = ["bool", "?int", "[]string", "[string]Foo", "(a: int, b: ?string)", "(one, two, three)",
+        "(x: (y: [](z: bool, w: [string]()), v: float), u: object)", "?[](k: (deep: ?[string](e1, e2)))"];
+    // member templates: {N} is replaced by a position-dependent suffix so that names stay distinct
+    let mut members: Vec<String> = vec![
+        "type Ty{N} (a: int)".into(), "type En{N} (one, two)".into(), "type Empty{N} ()".into(),
+        "type Big{N} (first_field_with_a_long_name: [string](key: int, value: []?string), second_field_with_a_long_name: ?(lo: float, hi: float), third: (red, green, blue))".into(),
+        "method Nop{N}() -> ()".into(), "error Plain{N} ()".into(),
+        "method Long{N}(a_long_argument_name: []string, another_long_argument_name: ?(x: int, y: int)) -> (a_long_result_name: [string]object, another_long_result_name: (off, on))".into(),
+        "method In{N}(only_input_is_long_enough_to_wrap_at_moderate_widths: (a: int, b: int, c: int)) -> ()".into(),
+        "method Out{N}() -> (only_output_is_long_enough_to_wrap_at_moderate_widths: (a: int, b: int, c: int))".into(),
+        "error Detailed{N} (reason: string, fields_with_a_long_name_of_their_own: [](name: string, kind: (missing, invalid)))".into(),
+    ];
+    for (k, t) in types.iter().enumerate() {
+        if k % 2 == 0 { members.push(format!("method M{}x{{N}}(p: {}) -> (r: {})", k, t, t)); } else { members.push(format!("error E{}x{{N}} (p: {})", k, t)); }
+    }
+    // every decoration prefix of <= 3 of `?`, `[]`, `[string]` (no `??`) in front of an anonymous struct and an anonymous enum: as the fields of one type and as method parameters
+    let decos = ["?", "[]", "[string]"];
+    let mut prefixes: Vec<String> = vec![String::new()];
+    let mut frontier: Vec<String> = vec![String::new()];
+    for _ in 0..3 {
+        let mut next = Vec::new();
+        for p in &frontier { for d in decos { if d == "?" && p.ends_with('?') { continue; } next.push(format!("{}{}", p, d)); } }
+        prefixes.extend(next.iter().cloned());
+        frontier = next;
+    }
+    let mut fields = Vec::new();
+    for (k, p) in prefixes.iter().enumerate() {
+        fields.push(format!("s{}: {}(alpha: int, beta: ?string)", k, p));
+        fields.push(format!("e{}: {}(left, right)", k, p));
+    }
+    for chunk in fields.chunks(6) {
+        members.push(format!("type Deco{{N}}x{} ({})", members.len(), chunk.join(", ")));
+        members.push(format!("method Deco{{N}}x{}({}) -> ({})", members.len(), chunk[..chunk.len() / 2].join(", "), chunk[chunk.len() / 2..].join(", ")));
+    }
+    let docs: [&[&str]; 3] = [&[], &["# one line of documentation"], &["# first line", "#   second line, indented", "#", "# after an empty comment line"]];
+    let mut out = Vec::new();
+    let n = members.len();
+    let mut seqs: Vec<Vec<usize>> = Vec::new();
+    for a in 0..n { seqs.push(vec![a]); for b in 0..n { if a < 18 && b < 18 { seqs.push(vec![a, b]); } } if a >= 18 { seqs.push(vec![0, a]); seqs.push(vec![a, 9]); } }
+    // triples over a reduced set (one of each kind / shape)
+    let red = [0usize, 1, 3, 4, 6, 9];
+    for a in red { for b in red { for c in red { seqs.push(vec![a, b, c]); } } }
+    for idoc in 0..2 {
+        for d in 0..3 {
+            for s in &seqs {
+                let mut t = String::new();
+                if idoc == 1 { t.push_str("# The interface documentation\n# in two lines\n"); }
+                t.push_str("interface org.example.fmt\n");
+                for (pos, m) in s.iter().enumerate() {
+                    t.push('\n');
+                    // vary the documentation per member position so that a doc attached to the wrong member shows
+                    let dd = docs[(d + pos) % 3];
+                    for l in dd { t.push_str(l); t.push('\n'); }
+                    t.push_str(&members[*m].replace("{N}", &format!("{}", pos)));
+                    t.push('\n');
+                }
+                out.push(t);
+            }
+        }
+    }
+    out
+}
+fn search_format(obs: &[&str]) {
+    use std::convert::TryFrom;
+    use varlink_parser::{Format, FormatColored, IDL};
+    colored::control::set_override(true);
+    let corpus = fmt_corpus();
+    let mut found: std::collections::BTreeMap<&str, Value> = Default::default();
+    let mut explored = 0usize;
+    let mut distinct = std::collections::HashSet::new();
+    let mut sample: Option<Value> = None;
+    for (ci, src) in corpus.iter().enumerate() {
+        let a = match IDL::try_from(src.as_str()) { Ok(a) => a, Err(e) => { found.entry("C10.corpus").or_insert(json!({"source": src, "error": format!("{}", e)})); continue; } };
+        let da = dump_idl(&a);
+        // every width for the one- and two-member definitions, a spread of widths for the triples
+        let widths: Vec<usize> = if src.matches("\n\n").count() <= 2 { (0..=100).chain(std::iter::once(1000)).collect() } else { vec![0, 1, 20, 33, 40, 50, 60, 72, 79, 80, 81, 100, 1000] };
+        for w in widths {
+            explored += 1;
+            let f1 = match std::panic::catch_unwind(std::panic::AssertUnwindSafe(|| a.get_multiline(0, w))) {
+                Ok(f) => f,
+                Err(_) => { found.entry("C10.parse-bounded").or_insert(json!({"source": src, "width": w, "observed": "get_multiline panicked"})); continue; }
+            };
+            if distinct.len() < 200000 { distinct.insert(f1.clone()); }
+            if sample.is_none() && ci == 7 && w == 40 { sample = Some(json!({"source": src, "width": w, "formatted": f1})); }
+            match IDL::try_from(f1.as_str()) {
+                Err(e) => { found.entry("C10.parse-bounded").or_insert(json!({"source": src, "width": w, "formatted": f1, "observed": format!("the formatted text is rejected: {}", e)})); }
+                Ok(b) => {
+                    let db = dump_idl(&b);
+                    if db != da { found.entry("C10.preserve-bounded").or_insert(json!({"source": src, "width": w, "formatted": f1, "expected_structure": da, "observed_structure": db})); }
+                    let f2 = b.get_multiline(0, w);
+                    if f2 != f1 { found.entry("C10.idempotent-bounded").or_insert(json!({"source": src, "width": w, "formatted_once": f1, "formatted_twice": f2})); }
+                }
+            }
+            let c = a.get_multiline_colored(0, w);
+            if strip_ansi(&c) != f1 { found.entry("C10.colored-bounded").or_insert(json!({"source": src, "width": w, "plain": f1, "colored_without_escapes": strip_ansi(&c)})); }
+            if !c.contains('\u{1b}') { found.entry("C10.colored-bounded").or_insert(json!({"source": src, "width": w, "observed": "the colored rendering carries no escape sequence (override on)"})); }
+        }
+        if a.to_string() != a.get_multiline(0, 80) { found.entry("C10.display-bounded").or_insert(json!({"source": src, "display": a.to_string(), "width80": a.get_multiline(0, 80)})); }
+        // the one-line renderings: Display of the parts is get_oneline; the colored one-line rendering differs by escapes only
+        if strip_ansi(&a.get_oneline_colored()) != a.get_oneline() { found.entry("C10.colored-bounded").or_insert(json!({"source": src, "oneline": a.get_oneline(), "colored_without_escapes": strip_ansi(&a.get_oneline_colored())})); }
+    }
+    for ob in obs {
+        let hit = found.get(ob).cloned().or_else(|| if *ob != "C10.corpus" { None } else { None });
+        let corpus_bad = found.get("C10.corpus").cloned();
+        let mut d = hit.clone().unwrap_or(Value::Null);
+        if hit.is_none() { if let Some(cb) = corpus_bad.clone() { if *ob == "C10.parse-bounded" { d = json!({"corpus_definition_rejected": cb}); } } }
+        let f = hit.is_some() || (*ob == "C10.parse-bounded" && corpus_bad.is_some());
+        println!("{}", json!({"obligation": ob, "found": f, "explored": explored, "distinct": distinct.len(), "definitions": corpus.len(), "detail": d, "sample": sample}));
+    }
+}
+
+// C09 replay: the real varlink_generator::generate / compile on inputs the parser rejects (and on unreadable input) must return an error and write NOTHING;
+// on an accepted definition the output is written once and is the same text on a second run.
+struct CountingWriter { data: Vec<u8>, writes: usize }
+impl Write for CountingWriter {
+    fn write(&mut self, b: &[u8]) -> std::io::Result<usize> { self.writes += 1; self.data.extend_from_slice(b); Ok(b.len()) }
+    fn flush(&mut self) -> std::io::Result<()> { Ok(()) }
+}
+struct FailingReader;
+impl Read for FailingReader { fn read(&mut self, _: &mut [u8]) -> std::io::Result<usize> { Err(std::io::Error::new(std::io::ErrorKind::Other, "boom")) } }
+fn search_generate(obs: &[&str]) {
+    use std::convert::TryFrom;
+    let good = "# doc\ninterface org.example.g\n\ntype T (a: int, b: ?[]string)\n\nmethod M(t: T) -> (r: [string]T)\n\nerror E (why: string)\n";
+    let mut found: std::collections::BTreeMap<&str, Value> = Default::default();
+    let mut explored = 0usize;
+    // rejected inputs: every truncation of a good definition that the parser rejects, duplicates, garbage, invalid UTF-8
+    let mut bad: Vec<Vec<u8>> = Vec::new();
+    for k in 0..good.len() { if good.is_char_boundary(k) { bad.push(good.as_bytes()[..k].to_vec()); } }
+    bad.push(b"interface org.example.g\n\nmethod A() -> ()\n\nmethod A() -> ()\n".to_vec());
+    bad.push(b"interface org.example.g\n\ntype A (a: int)\n\nerror A ()\n".to_vec());
+    bad.push(b"interface x\n\nmethod A() -> ()\n".to_vec());
+    bad.push(b"\xff\xfe interface org.example.g\n".to_vec());
+    bad.push(b"interface org.example.g\n\nmethod A(a: ??int) -> ()\n".to_vec());
+    for tosource in [false, true] {
+        for b in &bad {
+            let rejected = match std::str::from_utf8(b) { Ok(t) => varlink_parser::IDL::try_from(t).is_err(), Err(_) => true };
+            if !rejected { continue; }
+            explored += 1;
+            let mut w = CountingWriter { data: Vec::new(), writes: 0 };
+            let r = std::panic::catch_unwind(std::panic::AssertUnwindSafe(|| varlink_generator::generate(&mut &b[..], &mut w, tosource)));
+            let shown = String::from_utf8_lossy(b).to_string();
+            match r {
+                Err(_) => { found.entry("C09.no-panic").or_insert(json!({"input": shown, "observed": "generate panicked"})); }
+                Ok(Ok(())) => { found.entry("C09.reject").or_insert(json!({"input": shown, "observed": "generate returned Ok for an input the parser rejects", "bytes_written": w.data.len()})); }
+                Ok(Err(e)) => {
+                    if !w.data.is_empty() { found.entry("C09.reject").or_insert(json!({"input": shown, "observed": "an error was returned but output was written", "bytes_written": w.data.len()})); }
+                    if format!("{}", e).is_empty() { found.entry("C09.reject").or_insert(json!({"input": shown, "observed": "the error renders as an empty diagnostic"})); }
+                    if std::str::from_utf8(b).is_err() && !matches!(e, varlink_generator::Error::Io(_)) { found.entry("C09.io").or_insert(json!({"input": shown, "observed": format!("{:?}", e)})); }
+                    if std::str::from_utf8(b).is_ok() && !matches!(e, varlink_generator::Error::Parse(_)) { found.entry("C09.reject").or_insert(json!({"input": shown, "observed": format!("{:?}", e)})); }
+                }
+            }
+            if let Ok(t) = std::str::from_utf8(b) {
+                match std::panic::catch_unwind(|| varlink_generator::compile(t.to_string())) {
+                    Ok(Ok(_)) => { found.entry("C09.reject").or_insert(json!({"input": shown, "observed": "compile returned Ok for an input the parser rejects"})); }
+                    Ok(Err(_)) => {}
+                    Err(_) => { found.entry("C09.no-panic").or_insert(json!({"input": shown, "observed": "compile panicked"})); }
+                }
+            }
+        }
+        explored += 1;
+        let mut w = CountingWriter { data: Vec::new(), writes: 0 };
+        match varlink_generator::generate(&mut FailingReader, &mut w, tosource) {
+            Err(varlink_generator::Error::Io(_)) if w.data.is_empty() => {}
+            other => { found.entry("C09.io").or_insert(json!({"input": "<reader that fails>", "observed": format!("{:?} with {} bytes written", other.map_err(|e| e.to_string()), w.data.len())})); }
+        }
+        // accepted input: written, non-empty, deterministic
+        explored += 1;
+        let mut w1 = CountingWriter { data: Vec::new(), writes: 0 };
+        let mut w2 = CountingWriter { data: Vec::new(), writes: 0 };
+        let r1 = varlink_generator::generate(&mut good.as_bytes(), &mut w1, tosource);
+        let r2 = varlink_generator::generate(&mut good.as_bytes(), &mut w2, tosource);
+        if r1.is_err() || r2.is_err() || w1.data.is_empty() || w1.data != w2.data {
+            found.entry("C09.emit").or_insert(json!({"input": good, "observed": format!("ok={} ok={} bytes={} equal={}", r1.is_ok(), r2.is_ok(), w1.data.len(), w1.data == w2.data)}));
+        }
+        if let Ok(ts) = varlink_generator::compile(good.to_string()) {
+            if tosource && ts.to_string().as_bytes() != &w1.data[..] { found.entry("C09.emit").or_insert(json!({"input": good, "observed": "generate(tosource) and compile disagree on the emitted text"})); }
+        } else { found.entry("C09.total").or_insert(json!({"input": good, "observed": "compile fails on an accepted definition"})); }
+    }
+    for ob in obs { emit(ob, found.contains_key(ob), explored, found.get(ob).cloned().unwrap_or(Value::Null)); }
+}
+
 fn main() {
     if std::env::args().nth(1).as_deref() == Some("--bridge-probe") {
         std::process::exit(bridge_probe(&std::env::args().nth(2).unwrap_or_default()));
@@ -1713,6 +1956,10 @@ fn main() {
     if !gen.is_empty() { search_gen(&gen); }
     let cert: Vec<&str> = ["C19.gate", "C19.step", "C19.own-id", "C19.mode", "C19.value"].iter().cloned().filter(|o| m(o)).collect();
     if !cert.is_empty() { search_cert(&cert); }
+    let fm: Vec<&str> = ["C10.parse-bounded", "C10.preserve-bounded", "C10.idempotent-bounded", "C10.colored-bounded", "C10.display-bounded"].iter().cloned().filter(|o| m(o)).collect();
+    if !fm.is_empty() { search_format(&fm); }
+    let gn: Vec<&str> = ["C09.reject", "C09.io", "C09.emit", "C09.nothing-on-failure", "C09.total", "C09.no-panic"].iter().cloned().filter(|o| m(o)).collect();
+    if !gn.is_empty() { search_generate(&gn); }
     let wr: Vec<&str> = ["C17.wire-attrs"].iter().cloned().filter(|o| m(o)).collect();
     if !wr.is_empty() { search_wire_roundtrip(&wr); }
 }
